@@ -167,6 +167,10 @@ def execute(mod, case, stats, known):
     """Run one case; record statistics; return the list of failures not covered by a known finding."""
     t_case = time.time()
     try:
+        # every case is a pure function of its JSON: layers whose constructors draw from the global torch RNG (conditioner
+        # networks, random permutations) would otherwise depend on the cases that ran before, and replays would not reproduce
+        import torch
+        torch.manual_seed(int(case_hash(case)[:8], 16))
         res = mod.run_case(case)
     except (HarnessError, KeyboardInterrupt):
         raise
